@@ -202,3 +202,283 @@ func lastPos(b *ssa.BasicBlock) token.Pos {
 	}
 	return b.Parent().Pos()
 }
+
+// OrdTextIVM implements ORD-TEXTIVM: the text reader recognises the version
+// marker $ion_1_0 and resets the symbol table context when it sees one.
+func OrdTextIVM(p *load.Program) *report.RuleResult {
+	r := newResult("ORD-TEXTIVM", "the text reader compares an unquoted top-level symbol with the version marker text \"$ion_1_0\"; on the edge where it matches, the current symbol table is reset to the system table and the marker is not surfaced as a value (done == false)", 2)
+	found := 0
+	for _, fn := range sortedFuncs(p) {
+		if p.InTest(fn) || recvTypeName(fn) != "textReader" {
+			continue
+		}
+		var ff *ssau.FactFlow
+		// the value compared with "$ion_1_0"
+		var vpaths []string
+		for _, b := range fn.Blocks {
+			for _, in := range b.Instrs {
+				bo, ok := in.(*ssa.BinOp)
+				if !ok || bo.Op != token.EQL {
+					continue
+				}
+				for _, pr := range [][2]ssa.Value{{bo.X, bo.Y}, {bo.Y, bo.X}} {
+					if s, ok := ssau.ConstString(pr[1]); ok && s == "$ion_1_0" {
+						vpaths = append(vpaths, ssau.Path(pr[0]))
+					}
+				}
+			}
+		}
+		if len(vpaths) == 0 {
+			continue
+		}
+		found++
+		ff = ssau.ComputeFacts(fn, ssau.StoreKills)
+		name := p.FuncName(fn)
+		isMarker := func(fs ssau.FactSet) bool {
+			for _, vp := range vpaths {
+				if fs.Has("eq", vp, `k:"$ion_1_0"`) {
+					return true
+				}
+			}
+			return false
+		}
+		reset := false
+		for _, b := range fn.Blocks {
+			for _, in := range b.Instrs {
+				st, ok := in.(*ssa.Store)
+				if !ok {
+					continue
+				}
+				if _, fl, ok := ssau.FieldOf(st.Addr); !ok || fl != "lst" {
+					continue
+				}
+				if strings.Contains(ssau.Path(st.Val), "V1SystemSymbolTable") && isMarker(ff.At(st)) {
+					reset = true
+					r.OK(name, instrPos(p, st), "version marker resets the symbol table", "lst = V1SystemSymbolTable on the edge where the symbol text is $ion_1_0")
+				}
+			}
+		}
+		if !reset {
+			r.Bad(name, p.Pos(fn.Pos()), "version marker resets the symbol table", "the symbol is compared with $ion_1_0 but the matching edge does not store the system table into lst: symbols after a text version marker resolve against the previous segment's table")
+		}
+		for _, ret := range returns(fn) {
+			if !isMarker(ff.At(ret)) || len(ret.Results) < 1 {
+				continue
+			}
+			if c, ok := ret.Results[0].(*ssa.Const); ok && c.Value != nil && c.Value.ExactString() == "false" {
+				r.OK(name, instrPos(p, ret), "version marker is not a value", "returns done == false")
+			} else if ei := errResultIndex(fn); ei >= 0 && definitelyNonNilError(p, ret.Results[ei], 0) {
+				continue
+			} else {
+				r.Bad(name, instrPos(p, ret), "version marker is not a value", "an exit reached with the symbol text equal to $ion_1_0 reports a value: the version marker surfaces as a user symbol")
+			}
+		}
+	}
+	if found == 0 {
+		r.Bad("textReader", "-", "version marker recognised", "no method of the text reader compares a symbol with \"$ion_1_0\": the text form of the version marker is read as an ordinary symbol and never resets the symbol table")
+	}
+	return r
+}
+
+// TabNibbleNext implements the Next half of TAB-NIBBLE: once bitstream.Next has
+// replaced the tag's low nibble by a length decoded from a VarUInt (sorted
+// structs), it no longer compares that value with the nibble's special codes
+// 14 (length follows) and 15 (null).
+func TabNibbleNext(p *load.Program) *report.RuleResult {
+	r := newResult("TAB-NIBBLE-NEXT", "in bitstream.Next every comparison of the length variable with the nibble codes 14 and 15 is unreachable on the paths where the variable already holds a length decoded by readVarUintLen (a sorted struct of 14 or 15 bytes is neither null nor long-form)", 2)
+	fn := p.Func(nil, "bitstream.Next")
+	if fn == nil {
+		missing(r, "bitstream.Next", "not found")
+		return r
+	}
+	ff := ssau.ComputeFacts(fn, ssau.StoreKills)
+	fromVarUint := func(v ssa.Value) bool {
+		ex, ok := v.(*ssa.Extract)
+		if !ok {
+			return false
+		}
+		c, ok := ex.Tuple.(*ssa.Call)
+		return ok && c.Call.StaticCallee() != nil && c.Call.StaticCallee().Name() == "readVarUintLen" && ex.Index == 0
+	}
+	// entry phis: where a decoded length first replaces the nibble
+	type entry struct {
+		ph    *ssa.Phi
+		edges []int
+	}
+	var entries []entry
+	for _, b := range fn.Blocks {
+		for _, in := range b.Instrs {
+			if ph, ok := in.(*ssa.Phi); ok {
+				var es []int
+				for i, e := range ph.Edges {
+					if fromVarUint(e) {
+						es = append(es, i)
+					}
+				}
+				if len(es) > 0 {
+					entries = append(entries, entry{ph, es})
+				}
+			}
+		}
+	}
+	var mayBeDecoded func(v ssa.Value, depth int) *entry
+	mayBeDecoded = func(v ssa.Value, depth int) *entry {
+		if depth > 6 {
+			return nil
+		}
+		ph, ok := v.(*ssa.Phi)
+		if !ok {
+			return nil
+		}
+		for i := range entries {
+			if entries[i].ph == ph {
+				return &entries[i]
+			}
+		}
+		for _, e := range ph.Edges {
+			if en := mayBeDecoded(e, depth+1); en != nil {
+				return en
+			}
+		}
+		return nil
+	}
+	n := 0
+	for _, b := range fn.Blocks {
+		for _, in := range b.Instrs {
+			bo, ok := in.(*ssa.BinOp)
+			if !ok || bo.Op != token.EQL {
+				continue
+			}
+			k, ok := ssau.ConstInt(bo.Y)
+			if !ok || (k != 14 && k != 15) {
+				continue
+			}
+			en := mayBeDecoded(bo.X, 0)
+			if en == nil {
+				continue
+			}
+			n++
+			what := sprintf("length == %d after a decoded length may have replaced the nibble", k)
+			facts := ff.At(bo)
+			by := ""
+			// (a) a bool phi next to the entry phi that is false exactly on the decoded-length edges, known true here
+			for _, in2 := range en.ph.Block().Instrs {
+				fl, ok := in2.(*ssa.Phi)
+				if !ok || fl == en.ph || basicKind(fl.Type()) != 1 {
+					continue
+				}
+				allFalse := true
+				for _, i := range en.edges {
+					c, ok := fl.Edges[i].(*ssa.Const)
+					if !ok || c.Value == nil || c.Value.ExactString() != "false" {
+						allFalse = false
+					}
+				}
+				if allFalse && facts.Has("true", ssau.Path(fl), "") {
+					by = "evaluated only where a flag that is false on the decoded-length paths is true"
+				}
+			}
+			// (b) the decoded-length edges require a type code that the facts here exclude
+			if by == "" {
+				excluded := true
+				for _, i := range en.edges {
+					edgeOK := false
+					for f := range ff.OnPhiEdge(en.ph, i) {
+						if f.Kind != "eq" || !strings.HasPrefix(f.Arg, "k:") {
+							continue
+						}
+						for g := range facts {
+							if g.Path == f.Path && ((g.Kind == "eq" && g.Arg != f.Arg && strings.HasPrefix(g.Arg, "k:")) || (g.Kind == "ne" && g.Arg == f.Arg)) {
+								edgeOK = true
+							}
+						}
+					}
+					if !edgeOK {
+						excluded = false
+					}
+				}
+				if excluded {
+					by = "the type code required on the decoded-length paths is excluded here"
+				}
+			}
+			if by != "" {
+				r.OK(p.FuncName(fn), instrPos(p, bo), what, by)
+			} else {
+				r.Bad(p.FuncName(fn), instrPos(p, bo), what, sprintf("the variable may hold a length read by readVarUintLen here, and a real length of %d is taken for the nibble code (%s)", k, map[int64]string{14: "a second length field is read", 15: "the value becomes a null"}[k]))
+			}
+		}
+	}
+	if n < 2 {
+		missing(r, "comparisons of the length with 14/15 in bitstream.Next", sprintf("found %d reached by a decoded length, expected 2", n))
+	}
+	return r
+}
+
+// OrdDecNegZero implements ORD-DECNEGZERO: the negative-zero flag of a binary
+// decimal comes from the coefficient's sign bit.
+func OrdDecNegZero(p *load.Program) *report.RuleResult {
+	r := newResult("ORD-DECNEGZERO", "in bitstream.readDecimal the negative-zero argument handed to NewDecimal is true only where the sign bit reported by readBigInt is set (a coefficient of 0x00 is plain zero, 0x80 is negative zero)", 1)
+	fn := p.Func(nil, "bitstream.readDecimal")
+	if fn == nil {
+		missing(r, "bitstream.readDecimal", "not found")
+		return r
+	}
+	var signPath string
+	for _, b := range fn.Blocks {
+		for _, in := range b.Instrs {
+			if c, ok := in.(*ssa.Call); ok && c.Call.StaticCallee() != nil && c.Call.StaticCallee().Name() == "readBigInt" {
+				if basicKind(c.Call.StaticCallee().Signature.Results().At(0).Type()) == 1 {
+					signPath = ssau.Path(c) + "#0"
+				}
+			}
+		}
+	}
+	ff := ssau.ComputeFacts(fn, ssau.StoreKills)
+	n := 0
+	for _, b := range fn.Blocks {
+		for _, in := range b.Instrs {
+			c, ok := in.(*ssa.Call)
+			if !ok || c.Call.StaticCallee() == nil || c.Call.StaticCallee().Name() != "NewDecimal" || len(c.Call.Args) < 3 {
+				continue
+			}
+			n++
+			what := "negative-zero argument of NewDecimal"
+			if signPath == "" {
+				r.Bad(p.FuncName(fn), instrPos(p, c), what, "readBigInt does not report the sign bit, so a zero coefficient cannot be told from negative zero")
+				continue
+			}
+			ok2 := true
+			var check func(v ssa.Value, fs ssau.FactSet, depth int)
+			check = func(v ssa.Value, fs ssau.FactSet, depth int) {
+				if depth > 4 {
+					ok2 = false
+					return
+				}
+				switch x := v.(type) {
+				case *ssa.Const:
+					if x.Value != nil && x.Value.ExactString() == "true" {
+						ok2 = false
+					}
+				case *ssa.Phi:
+					for i, e := range x.Edges {
+						check(e, ff.OnPhiEdge(x, i), depth+1)
+					}
+				default:
+					if !fs.Has("true", signPath, "") && ssau.Path(v) != signPath {
+						ok2 = false
+					}
+				}
+			}
+			check(c.Call.Args[2], ff.At(c), 0)
+			if ok2 {
+				r.OK(p.FuncName(fn), instrPos(p, c), what, "can be true only where readBigInt reported the sign bit")
+			} else {
+				r.Bad(p.FuncName(fn), instrPos(p, c), what, "the flag can be true without the sign bit being set: 52 80 00 (coefficient 0x00) decodes as -0.")
+			}
+		}
+	}
+	if n == 0 {
+		missing(r, "NewDecimal call in readDecimal", "not found")
+	}
+	return r
+}
